@@ -1065,6 +1065,119 @@ def key_of(case):
     return json.dumps({k: v for k, v in case.items() if k not in ("users", "seed", "psi", "X")}, sort_keys=True, default=str)[:400]
 
 
+# ---- registers with subsystems of dimension 2 or 3 (QubitCircuit(N, dims=[...])), user gates given as matrices ----
+def apply_dims(T, M, targets, dims):
+    """T: array whose first len(dims) axes have sizes dims; apply M on the subsystems `targets` (listed order = index order of M)"""
+    td = [dims[t] for t in targets]
+    k = len(targets)
+    Mt = np.asarray(M, dtype=complex).reshape(td + td)
+    R = np.tensordot(Mt, T, axes=(list(range(k, 2 * k)), list(targets)))
+    return np.moveaxis(R, list(range(k)), list(targets))
+
+
+def qudit_expected(case, X):
+    dims = case["dims"]
+    X = np.asarray(X, dtype=complex)
+    T = X.reshape(list(dims) + ([X.shape[1]] if X.ndim == 2 else []))
+    for g in case["gates"]:
+        M = uncm(case["users"][g["name"]]["mat0"]) if g["name"] in case["users"] else Q.np_gate(g["name"], g.get("arg"))
+        T = apply_dims(T, M, g["targets"], dims)
+    return T.reshape(X.shape)
+
+
+def gen_qudit(rng):
+    N = rng.choice([1, 2, 2, 3])
+    dims = [rng.choice([2, 3]) for _ in range(N)]
+    if all(d == 2 for d in dims):
+        dims[rng.randrange(N)] = 3
+    users, gates = {}, []
+    rsm = np.random.RandomState(rng.randrange(2 ** 31))
+    for i in range(rng.randint(1, 4)):
+        qubits = [q for q in range(N) if dims[q] == 2]
+        if qubits and rng.random() < 0.25:
+            name = rng.choice(["X", "SNOT", "RY", "S"])
+            gates.append(dict(name=name, targets=[rng.choice(qubits)], controls=None, arg=(0.7 if name == "RY" else None)))
+            continue
+        k = rng.choice([1, 1, 2]) if N >= 2 else 1
+        ts = rng.sample(range(N), k)
+        d = int(np.prod([dims[t] for t in ts]))
+        A = rsm.normal(size=(d, d)) + 1j * rsm.normal(size=(d, d))
+        name = f"QD{i}"
+        users[name] = dict(form=rng.choice(["oper", "fun0"]), mat0=cm(np.linalg.qr(A)[0]), dims=[dims[t] for t in ts])
+        gates.append(dict(name=name, targets=ts, controls=None, arg=None))
+    return dict(kind="qudit", N=N, dims=dims, gates=gates, users=users, seed=rng.randrange(2 ** 31))
+
+
+def check_qudit(case):
+    """every path on a register with dims in {2,3}; a path that raises on this well-formed circuit is an oracle failure"""
+    from qutip import Qobj
+    from qutip_qip.circuit import QubitCircuit, CircuitSimulator
+    from qutip_qip.operations import gate_sequence_product
+    dims = case["dims"]
+    N = case["N"]
+    D = int(np.prod(dims))
+    rs = np.random.RandomState(case["seed"] % (2 ** 31))
+    ug = {}
+    for name, u in case["users"].items():
+        q = Qobj(uncm(u["mat0"]), dims=[u["dims"], u["dims"]])
+        ug[name] = q if u["form"] == "oper" else _fun0(uncm(u["mat0"]), [u["dims"], u["dims"]])
+    psi = rs.normal(size=D) + 1j * rs.normal(size=D)
+    psi /= np.linalg.norm(psi)
+    A = rs.normal(size=(D, D)) + 1j * rs.normal(size=(D, D))
+    rho = A @ A.conj().T
+    rho /= np.trace(rho)
+    X = rs.normal(size=(D, D)) + 1j * rs.normal(size=(D, D))
+    E = qudit_expected(case, np.eye(D))
+    out = []
+
+    def attempt(path, fn, expected):
+        try:
+            got = fn()
+        except Exception as e:
+            out.append(dict(input=dict(case, path=path), observed=f"{type(e).__name__}: {e}"[:300], expected="a result",
+                            what=f"register with dims {{2,3}} ({GROUP.get(path, path)}): the real code raised {type(e).__name__}"))
+            return
+        d = maxdiff(got, expected)
+        if not d < 1e-9:
+            out.append(dict(input=dict(case, path=path), observed=f"max deviation {d:.3g}", expected="deviation < 1e-9",
+                            what=f"register with dims {{2,3}} ({GROUP.get(path, path)}): result differs from the ordered product of embedded matrices"))
+
+    def mk():
+        qc = QubitCircuit(N, dims=list(dims), user_gates=ug)
+        for g in case["gates"]:
+            qc.add_gate(g["name"], targets=list(g["targets"]), arg_value=g.get("arg"))
+        return qc
+    try:
+        qc = mk()
+    except Exception as e:
+        return [dict(input=dict(case, path="build"), observed=f"{type(e).__name__}: {e}"[:300], expected="a circuit",
+                     what="register with dims {2,3}: circuit construction raised")]
+    ket = Qobj(psi.reshape(D, 1), dims=[list(dims), [1] * N])
+    rhoq = Qobj(rho, dims=[list(dims), list(dims)])
+    Xq = Qobj(X, dims=[list(dims), list(dims)])
+    attempt("run_ket", lambda: qc.run(ket).full().reshape(D), E @ psi)
+    attempt("run_dm", lambda: qc.run(rhoq).full(), E @ rho @ E.conj().T)
+    attempt("dm_ket", lambda: CircuitSimulator(qc, mode="density_matrix_simulator").run(ket).get_final_states(0).full(),
+            np.outer(E @ psi, (E @ psi).conj()))
+    attempt("unitary", lambda: qc.compute_unitary().full(), E)
+    attempt("oper", lambda: CircuitSimulator(qc).run(Xq).get_final_states(0).full(), E @ X)
+    attempt("expanded", lambda: gate_sequence_product(qc.propagators(expand=True)).full(), E)
+
+    def stepper():
+        sim = CircuitSimulator(qc)
+        sim.initialize(ket)
+        held = []
+        for _ in case["gates"]:
+            sim.step()
+            held.append(sim.state)
+        worst = 0.0
+        for i, h in enumerate(held):
+            worst = max(worst, maxdiff(h.full().reshape(D), qudit_expected(dict(case, gates=case["gates"][:i + 1]), psi)))
+        return np.array([worst])
+    attempt("step", stepper, np.array([0.0]))
+    return out
+
+
 def process(corr, case, coq, einsum_seen):
     """run one case on the real code, register oracle failures, queue model evaluations"""
     kind = case.get("kind")
@@ -1111,6 +1224,11 @@ def process(corr, case, coq, einsum_seen):
                                  "_mult_sublists: revised blocks differ from (old blocks, then U)")
         coq.append(("mult", case, res, table, mats))
         corr.count(key_of(case), nontrivial=True)
+    elif kind == "qudit":
+        corr.tally("qudit-register")
+        for f in check_qudit(case):
+            corr.oracle_fail(f["input"], f["observed"], f["expected"], f["what"])
+        corr.count(key_of(case), nontrivial=True, sample=None)
     elif kind == "exact":
         corr.tally("exact")
         coq.append(("exact", case, exact_real(case), None, None))
@@ -1308,6 +1426,9 @@ def correspond(ctx):
         cases.append(gen_random_circuit(rng))
     for _ in range(ctx.n(40, 300)):
         cases.append(gen_phase_circuit(rng))
+    # registers with subsystems of dimension 2 or 3 and user gates given as matrices of the right dimension
+    for _ in range(ctx.n(40, 400)):
+        cases.append(gen_qudit(rng))
     # exact boundary angles on every parametrised gate kind; user gates named like library gates
     cases += gen_boundary_cases(rng, full=ctx.thorough)
     from qutip_qip.operations import GATE_CLASS_MAP as _GCM
@@ -1421,6 +1542,8 @@ def search(ctx, broken):
         cases.append(gen_phase_circuit(rng))
     for _ in range(300):
         cases.append(gen_object_circuit(rng))
+    for _ in range(200):
+        cases.append(gen_qudit(rng))
     cases += gen_boundary_cases(rng)
     for _ in range(300):
         cases.append(gen_libname_user(rng))
